@@ -58,8 +58,11 @@ def configs_for(base):
     return out
 
 
+ORDER = [0, 1, 2, 10, 4, 5, 6, 3, 7, 8, 9, 11]  # quick uses the first 8: incl. Gaussian with explicit log-partition
+
+
 def cases(tier, seed):
-    for bi in range(BOUNDS[tier]["bases"]):
+    for bi in ORDER[: BOUNDS[tier]["bases"]]:
         for semiring, fold, optimize in configs_for(BASES[bi]):
             yield {"base": bi, "semiring": semiring, "fold": fold, "optimize": optimize, "depth": BOUNDS[tier]["depth"]}
 
